@@ -98,6 +98,8 @@ impl EventGen for LoopElement {
                 if !loop_var_name.is_empty() {
                     context.set_var(&loop_var_name, &loop_var_value.to_string());
                 }
+                #[cfg(feature = "verif-hooks")]
+                crate::verif::loop_iter();
 
                 let (ev_list, ev_bbox) = process_events(inner_events.clone(), context)?;
                 gen_events.extend(&ev_list);
@@ -172,6 +174,8 @@ impl EventGen for ForElement {
             // loop & idx vars don't leak out / override existing vars?
             for item in data_list {
                 context.set_var(&for_def.var_name, &item);
+                #[cfg(feature = "verif-hooks")]
+                crate::verif::loop_iter();
                 if let Some(ref idx_name) = idx_name {
                     context.set_var(idx_name, &idx.to_string());
                 }
